@@ -11,6 +11,8 @@
 //   UPD f i j   DataIndexes::UpdateRaw(old row i, new row j)
 //   UPC f i c v t   DataIndexes::UpdateRaw(row i, offset of column c, item v, assigner); t=1: the assigner throws
 //   FU j v..    FindRaws(unique index j, tuple)   FM j v..  FindRaws(multi index j, tuple)
+//   FLT m r     DataIndexes::FilterRaws(keep rows with id % m != r)
+//   SEG n       the real SegmentedArraySettings<sqrt,6>::GetItemCount(n) / GetSegItemIndexes(n) (translator validation)
 //   DUMP        full canonical state
 // After every mutating op the line carries "<result> #<digest of the canonical state>".
 #include "private_access.h"
@@ -307,6 +309,20 @@ struct Bed
 				for (long g : got) out << " " << g;     // array order: key row first, then the values
 			}
 		}
+		else if (cmd == "FLT")
+		{
+			int m, r; is >> m >> r;
+			idx.FilterRaws([m, r] (S* raw) noexcept { return (raw - g_store) % m != r; });
+			for (auto it = live.begin(); it != live.end(); ) { if (*it % m == r) it = live.erase(it); else ++it; }
+			out << "ok";
+		}
+		else if (cmd == "SEG")
+		{
+			mutating = false; size_t n; is >> n;
+			typedef momo::SegmentedArraySettings<momo::SegmentedArrayItemCountFunc::sqrt, 6> SAS;
+			size_t si = 0, ii = 0; SAS::GetSegItemIndexes(n, si, ii);
+			out << "seg " << SAS::GetItemCount(n) << " " << si << " " << ii;
+		}
 		else if (cmd == "DUMP") { mutating = false; out << dump(false); }
 		else { mutating = false; out << "?"; }
 		if (mutating) { ++version; verify(); out << " #" << strDigest(dump(false)); }
@@ -317,6 +333,7 @@ struct Bed
 template<typename Traits> static std::string runCase(const std::vector<std::string>& ops)
 {
 	std::string outLine;
+	std::memset(g_store, 0, sizeof(g_store));
 	{
 		Bed<Traits> bed;
 		for (const std::string& text : ops)
